@@ -131,6 +131,7 @@ class Host:
         self.contexts = collections.defaultdict(list)
         self.contract_entries = set()
         self.ffi_checks = []
+        self.implied = {}
 
     def target(self, ce):
         t = None
@@ -153,6 +154,16 @@ class Host:
         self.runs[(fn["crate"], fn["key"])].append(ai)
         self.contexts[(fn["crate"], fn["key"])].append((closed, depth))
         self.memo[k] = ai.ret
+        # what a good (Ok/Some) result implies about the arguments: hull of the parameter intervals over all returns that may be good
+        imp = {}
+        goods = [pi for good, pi in ai.ret_cases if good is not False]
+        if goods and len(goods) < len(ai.ret_cases):
+            for key in goods[0]:
+                if all(key in g for g in goods):
+                    lo, hi = min(g[key][0] for g in goods), max(g[key][1] for g in goods)
+                    if (lo, hi) != ai.symrange.get(key):
+                        imp[key] = (lo, hi)
+        self.implied[k] = imp
         return ai.ret
 
     def call(self, ai, st, bi, ce, args, atys, dty, key):
@@ -173,6 +184,19 @@ class Host:
                     subst[gn] = sv
         ret = self.analyse(t, closed, ai.depth + 1, subst)
         v = ai.open_(st, ret, key)
+        imp = self.implied.get((t["crate"], t["key"], closed, tuple(sorted((subst or {}).items()))), {})
+        if imp and isinstance(v, tuple) and v and v[0] == "o" and v[3] is None:
+            from absint import K
+            conds = None
+            for pk, (lo, hi) in imp.items():
+                a = args[pk[1] - 1] if pk[1] - 1 < len(args) else None
+                lin = a if (len(pk) == 2 and is_lin(a)) else (ai.length(st, a, atys[pk[1] - 1], key + ("imp", pk[1])) if len(pk) == 3 and a is not None else None)
+                if lin is None:
+                    continue
+                c = ("b", "and", ("b", "Ge", lin, K(lo)), ("b", "Le", lin, K(hi)))
+                conds = c if conds is None else ("b", "and", conds, c)
+            if conds is not None:
+                v = ("o", v[1], v[2], ("b", "implied", conds, None))
         return v if v is not None else NotImplemented
 
     # ---- R04.2 hooks
